@@ -384,7 +384,7 @@ pub fn run(ctx: &Ctx) -> Report {
     );
     let mut st = Stats::new();
     let depth = ctx.tier.pick(3, 4);
-    let v = search(ctx, "query", ctx.tier.pick(60_000, 600_000), || case_strategy(depth), |c: &Case, st| {
+    let v = search(ctx, "query", ctx.tier.pick(200_000, 2_000_000), || case_strategy(depth), |c: &Case, st| {
         st.eval();
         check_case(c, st)
     }, &mut st);
